@@ -22,6 +22,7 @@ import (
 	"net/http"
 	"os"
 	"path/filepath"
+	"runtime"
 	"sort"
 	"strconv"
 	"strings"
@@ -291,6 +292,33 @@ func c13Hashes(s string) []string {
 	return out
 }
 
+// c13Observe: the stored topology (through the real TopologyStore), whom the real gate admits (asked about the universe,
+// the stored peers and the peerstore's peers), and the peerstore's peers.
+func c13Observe(store *topology.TopologyStore, gate *p2p.ConnectionGate, h *c13Host) string {
+	s := "none"
+	cands := append([]peer.ID{}, c13IDs...)
+	cands = append(cands, h.Peerstore().Peers()...)
+	if t, err := store.Topology(); err == nil {
+		xs := []string{}
+		for _, p := range t.Peers {
+			xs = append(xs, c13Idx(p.ID))
+			cands = append(cands, p.ID)
+		}
+		s = joinOr(xs, ",") + "/" + itoa(t.Threshold)
+	}
+	adm := []string{}
+	for _, id := range cands {
+		in, out := gate.InterceptSecured(network.DirInbound, id, nil), gate.InterceptPeerDial(id)
+		if in != out {
+			return "gate-inconsistent"
+		}
+		if in {
+			adm = append(adm, c13Idx(id))
+		}
+	}
+	return "S=" + s + "|G=" + joinOr(c13SortNum(adm), ",") + "|P=" + c13Sorted(h.Peerstore().Peers())
+}
+
 func init() {
 	c13Universe()
 	// sha256 <hex> => hex   (Go's crypto/sha256; validates the Lean implementation)
@@ -387,6 +415,16 @@ func init() {
 				break loop
 			}
 		}
+		// if the whole process was descheduled past the deadline, deliveries may be pending right now: let every runnable
+		// goroutine reach its send and take what is parked on the channel (never reports fewer than were really delivered)
+		for i := 0; i < 200 && len(out) < len(lines); i++ {
+			runtime.Gosched()
+			select {
+			case m := <-ch:
+				out = append(out, c13Idx(m.From)+":"+itoa(int(m.MessageType))+":"+m.SessionID+":"+hx(m.Payload))
+			default:
+			}
+		}
 		sort.Strings(out)
 		return joinOr(out, ";")
 	}
@@ -440,28 +478,72 @@ func init() {
 		if prov.panicked {
 			out = "panic"
 		}
-		s := "none"
-		cands := append([]peer.ID{}, c13IDs...) // whom we ask the gate about: the universe, the stored peers, the peerstore
-		cands = append(cands, h.Peerstore().Peers()...)
-		if t, err := store.Topology(); err == nil {
-			xs := []string{}
-			for _, p := range t.Peers {
-				xs = append(xs, c13Idx(p.ID))
-				cands = append(cands, p.ID)
-			}
-			s = joinOr(xs, ",") + "/" + itoa(t.Threshold)
+		return out + "|" + c13Observe(store, gate, h)
+	}
+	// refreshseq <initial topology> <ev>#<ev>#…   with ev = <hashes>~<body hex|x>~<oracle>~<storeOk>
+	//   => <outcome>,<outcome>,…|S=…|G=…|P=…        the SAME store, gate, host and handler see the whole sequence
+	ops["C13.refreshseq"] = func(a []string) string {
+		dir, err := os.MkdirTemp("", "verif-c13-")
+		if err != nil {
+			panic(err)
 		}
-		adm := []string{}
-		for _, id := range cands {
-			in, out := gate.InterceptSecured(network.DirInbound, id, nil), gate.InterceptPeerDial(id)
-			if in != out {
-				return "gate-inconsistent"
+		defer os.RemoveAll(dir)
+		path := filepath.Join(dir, "topology.json")
+		store := topology.NewTopologyStore(path)
+		init := c13Topo(a[0])
+		if err := store.StoreTopology(init); err != nil {
+			panic(err)
+		}
+		gate := p2p.NewConnectionGate(init)
+		h := c13NewHost(0)
+		p2p.LoadPeers(h, init.Peers)
+		f := &c13Fetcher{}
+		inner, err := topology.NewNetworkTopologyProvider(relayer.TopologyConfiguration{EncryptionKey: c13Key, Url: "http://unused"}, f)
+		if err != nil {
+			panic(err)
+		}
+		prov := &c13Provider{inner: inner}
+		l := &c13Listener{}
+		eh := eventHandlers.NewRefreshEventHandler(zerolog.Nop().With(), prov, store, l, nil, h, c13Comm{}, gate, c13Storer{}, nil, ethCommon.Address{})
+		outs := []string{}
+		for _, ev := range strings.Split(a[1], "#") {
+			p := strings.Split(ev, "~")
+			l.err, l.hashes = p[0] == "x", nil
+			if !l.err {
+				l.hashes = c13Hashes(p[0])
 			}
-			if in {
-				adm = append(adm, c13Idx(id))
+			f.err, f.body = p[1] == "x", nil
+			if !f.err {
+				f.body = unhx(p[1])
+			}
+			prov.panicked = false
+			if p[3] == "0" { // the topology file cannot be opened for writing during this call: a directory sits in its place
+				if err := os.Rename(path, path+".bak"); err != nil {
+					panic(err)
+				}
+				if err := os.Mkdir(path, 0o700); err != nil {
+					panic(err)
+				}
+			}
+			func() {
+				defer func() { _ = recover() }()
+				_ = eh.HandleEvents(big.NewInt(1), big.NewInt(2))
+			}()
+			if p[3] == "0" {
+				if err := os.Remove(path); err != nil {
+					panic(err)
+				}
+				if err := os.Rename(path+".bak", path); err != nil {
+					panic(err)
+				}
+			}
+			if prov.panicked {
+				outs = append(outs, "panic")
+			} else {
+				outs = append(outs, "done")
 			}
 		}
-		return out + "|S=" + s + "|G=" + joinOr(c13SortNum(adm), ",") + "|P=" + c13Sorted(h.Peerstore().Peers())
+		return strings.Join(outs, ",") + "|" + c13Observe(store, gate, h)
 	}
 	// conn <A's topology> <B's topology> <broadcast|raw>  => delivered:<attributed sender> | refused        (TEST of the libp2p assumptions)
 	//   Two REAL libp2p hosts built by p2p.NewHost on loopback: A = peer 0 (gater over A's topology), B = peer 1 (gater over
@@ -617,6 +699,7 @@ func c13Sha(b []byte) string { h := sha256.Sum256(b); return hex.EncodeToString(
 
 func genC13(g *G) {
 	c13Universe()
+	thrs := []string{"1", "2", "3", "0", "-1", "0x2", "abc", "", "1_0", "9223372036854775807", "9223372036854775808"}
 	// 1. SHA-256: every length 0..200 (straddles the 64-byte block and the 55/56 padding edge), random longer
 	for n := 0; n <= 200; n++ {
 		g.Emit("sha256", hx(g.Bytes(n)))
@@ -682,8 +765,46 @@ func genC13(g *G) {
 		ps := c13Subset(g)
 		g.Emit("cli", c13Ints(ps)+"/"+itoa(1+g.Intn(4)))
 	}
+	// 3d. sequences of refresh calls on one handler: mixtures of acceptable and unacceptable announcements
+	for i := 0; i < g.Count(120, 6000); i++ {
+		n := 2 + g.Intn(3)
+		evs := []string{}
+		for j := 0; j < n; j++ {
+			thr := "2"
+			if g.Intn(5) == 0 {
+				thr = g.Pick(thrs)
+			}
+			ct := c13Encrypt(g.Bytes(16), c13TopoJSON(g, c13Subset(g), thr))
+			body := hex.EncodeToString(ct)
+			dec := ct
+			hash := c13Sha(ct)
+			switch g.Intn(9) {
+			case 0:
+				hash = c13Sha(g.Bytes(4)) // some other announcement
+			case 1:
+				hash = "E"
+			case 2:
+				dec = ct[:8+g.Intn(8)] // announced but too short to decrypt
+				body = hex.EncodeToString(dec)
+				hash = c13Sha(dec)
+			case 3:
+				hash = "x" // listener error
+			case 4:
+				hash = strings.ToUpper(hash)
+			}
+			b := hx([]byte(body))
+			if g.Intn(12) == 0 {
+				b = "x"
+			}
+			sOk := "1"
+			if g.Intn(6) == 0 {
+				sOk = "0"
+			}
+			evs = append(evs, hash+"~"+b+"~"+c13Oracle(dec)+"~"+sOk)
+		}
+		g.Emit("refreshseq", c13Ints(c13Subset(g))+"/1", strings.Join(evs, "#"))
+	}
 	// 4. refresh: body variants × announced-hash variants × event lists × store outcome
-	thrs := []string{"1", "2", "3", "0", "-1", "0x2", "abc", "", "1_0", "9223372036854775807", "9223372036854775808"}
 	// 4a. systematic: an otherwise fully acceptable refresh × every threshold string × store outcome × position of the
 	//     good hash in the event list; and a valid topology × every (body form, hash form) pair
 	for _, thr := range thrs {
